@@ -4,8 +4,16 @@ package main
 //
 //	order       `D tok*`                   → framework_helper.SortOrderedComponents called directly
 //	orderstart  `S L tok* P tok* R tok*`   → a real app start with logging loaders / post-processors / runners
+//	            `SC L tok* P tok* R tok*`  → the same start with the probe component in a circular reference with a second
+//	                                         singleton (so the container requests an early reference) and the post-processors
+//	                                         REGISTERED in the order of the P section (imposed on GetSingletonNames); the
+//	                                         GetEarlyBeanReference callbacks of the smart (`s`) processors are logged (G:)
+//	            `Q op (/ op)*`             → one configure.Configure driven through a sequence of  S tok* (SetLoaders),
+//	                                         A tok* (AddLoaders), I (Initialize); one `L:… B:… E:…` group per Initialize
 //
-// participant token:  [i] (p<k> | o<k> | n | q) markers*      (see lean/Driver/Order.lean)
+// participant token:  [i|s] (p<k> | o<k> | n | q) markers*      (see lean/Driver/Order.lean)
+//
+//	i = InstantiationAware processor, s = SmartInstantiationAware processor (implements GetEarlyBeanReference)
 //
 //	p = Priority()+Order(), o = Order() only, n = neither, q = Priority() without Order() (must land in the plain block)
 //
@@ -28,6 +36,7 @@ import (
 	"github.com/go-kid/ioc/configure"
 	"github.com/go-kid/ioc/configure/binder"
 	"github.com/go-kid/ioc/container/processors"
+	"github.com/go-kid/ioc/container/support"
 	"github.com/go-kid/ioc/definition"
 	"github.com/go-kid/ioc/syslog"
 	"github.com/go-kid/ioc/util/framework_helper"
@@ -46,6 +55,7 @@ type ordTok struct {
 	cls   byte // 'p' 'o' 'n' 'q'
 	key   int
 	inst  bool
+	smart bool // SmartInstantiationAware (implies inst)
 	marks string
 	id    int
 }
@@ -64,7 +74,9 @@ func (t ordTok) has(m byte) bool { return strings.IndexByte(t.marks, m) >= 0 }
 
 func (t ordTok) String() string {
 	s := ""
-	if t.inst {
+	if t.smart {
+		s = "s"
+	} else if t.inst {
 		s = "i"
 	}
 	s += string(t.cls)
@@ -90,6 +102,9 @@ func parseOrdTok(s string, id int) (ordTok, bool) {
 	t := ordTok{id: id}
 	if strings.HasPrefix(s, "i") {
 		t.inst = true
+		s = s[1:]
+	} else if strings.HasPrefix(s, "s") {
+		t.inst, t.smart = true, true
 		s = s[1:]
 	}
 	if s == "" {
@@ -350,8 +365,28 @@ func (p *ordProbe) Naming() string { return ordProbeName }
 
 type startLog struct {
 	L, B, I, P, A, R []int
-	cur               int // loader whose LoadConfig ran last
+	G                []gCall // GetEarlyBeanReference callbacks: (component the early reference is for, processor)
+	cur              int     // loader whose LoadConfig ran last
 }
+
+type gCall struct {
+	name string
+	id   int
+}
+
+// the probe of `SC` starts: a circular reference between two singletons, so that whichever is created first is handed to
+// the other one as an EARLY reference (factory.go:194-201, 283-296) — the only place GetEarlyBeanReference is called from
+type ordProbeC struct {
+	Mate *ordMate `wire:""`
+}
+
+func (p *ordProbeC) Naming() string { return ordProbeName }
+
+type ordMate struct {
+	Probe *ordProbeC `wire:""`
+}
+
+func (m *ordMate) Naming() string { return "ordmate" }
 
 // sBase: what every logging participant carries. NO injection points (no tagged fields).
 type sBase struct {
@@ -482,6 +517,29 @@ func (p *ipBase) PostProcessAfterInstantiation(c any, n string) (bool, error) {
 	return false, nil
 }
 
+// smart processors: InstantiationAware + GetEarlyBeanReference (container/def.go:75-78)
+type spBase struct{ ipBase }
+
+func (p *spBase) GetEarlyBeanReference(c any, n string) (any, error) {
+	p.log.G = append(p.log.G, gCall{n, p.tok.id})
+	return c, nil
+}
+
+type spP struct {
+	spBase
+	kOrder
+	definition.PriorityComponent
+}
+type spO struct {
+	spBase
+	kOrder
+}
+type spN struct{ spBase }
+type spQ struct {
+	spBase
+	definition.PriorityComponent
+}
+
 type ppP struct {
 	ppBase
 	kOrder
@@ -513,6 +571,18 @@ type ipQ struct {
 
 func mkProc(b sBase) any {
 	k := kOrder{b.tok.key}
+	if b.tok.smart {
+		sb := spBase{ipBase{sBase: b}}
+		switch b.tok.cls {
+		case 'p':
+			return &spP{spBase: sb, kOrder: k}
+		case 'o':
+			return &spO{spBase: sb, kOrder: k}
+		case 'q':
+			return &spQ{spBase: sb}
+		}
+		return &spN{sb}
+	}
 	if b.tok.inst {
 		switch b.tok.cls {
 		case 'p':
@@ -636,20 +706,57 @@ func seqOracle(sig string, in []ordTok, log []int, stops string, reached, plainS
 	return ""
 }
 
-func runOrderStart(ls, ps, rs []ordTok, tags []string, w *hx.Writer) {
-	c := hx.Case{Scn: strings.Join(strings.Fields("S L "+joinToks(ls)+" P "+joinToks(ps)+" R "+joinToks(rs)), " "), Tags: tags}
+// groupEarly splits the GetEarlyBeanReference log into one call sequence per component an early reference was built for
+// (in order of first appearance)
+func groupEarly(g []gCall) [][]int {
+	var names []string
+	by := map[string][]int{}
+	for _, c := range g {
+		if _, ok := by[c.name]; !ok {
+			names = append(names, c.name)
+		}
+		by[c.name] = append(by[c.name], c.id)
+	}
+	out := make([][]int, 0, len(names))
+	for _, n := range names {
+		out = append(out, by[n])
+	}
+	return out
+}
+
+func runOrderStart(ls, ps, rs []ordTok, cyc bool, tags []string, w *hx.Writer) {
+	head := "S"
+	if cyc {
+		head = "SC"
+	}
+	c := hx.Case{Scn: strings.Join(strings.Fields(head+" L "+joinToks(ls)+" P "+joinToks(ps)+" R "+joinToks(rs)), " "), Tags: tags}
 	lg := &startLog{cur: -1}
 	var loaders []configure.Loader
 	for _, t := range ls {
 		loaders = append(loaders, mkLoader(sBase{tok: t, name: fmt.Sprintf("ordL%d", t.id), log: lg}))
 	}
 	comps := []any{&ordProbe{}}
+	opts := []app.SettingOption{app.LogLevel(syslog.LvPanic)}
+	if cyc {
+		comps = []any{&ordProbeC{}, &ordMate{}}
+		// registration order of the post-processors = order of the P section (GetSingletonNames is a sync.Map range otherwise);
+		// everything else (built-in components, probe, runners) keeps rank 0 and comes first
+		rank := map[string]int{}
+		for _, t := range ps {
+			rank[fmt.Sprintf("ordP%d", t.id)] = t.id + 1
+		}
+		opts = append(opts, app.SetRegistry(&permSR{SingletonRegistry: support.NewRegistry(), rank: rank}))
+	}
 	for _, t := range ps {
 		comps = append(comps, mkProc(sBase{tok: t, name: fmt.Sprintf("ordP%d", t.id), log: lg}))
 	}
 	for _, t := range rs {
 		comps = append(comps, mkRunner(sBase{tok: t, name: fmt.Sprintf("ordR%d", t.id), log: lg}))
 	}
+	opts = append(opts,
+		app.SetConfigBinder(&logBinder{Binder: binder.NewViperBinder("yaml"), log: lg}),
+		app.SetConfigLoader(loaders...),
+		app.SetComponents(comps...))
 	type result struct {
 		err error
 		pan any
@@ -658,10 +765,7 @@ func runOrderStart(ls, ps, rs []ordTok, tags []string, w *hx.Writer) {
 	go func() {
 		var res result
 		res.pan = hx.Guard(func() {
-			res.err = app.NewApp().Run(app.LogLevel(syslog.LvPanic),
-				app.SetConfigBinder(&logBinder{Binder: binder.NewViperBinder("yaml"), log: lg}),
-				app.SetConfigLoader(loaders...),
-				app.SetComponents(comps...))
+			res.err = app.NewApp().Run(opts...)
 		})
 		done <- res
 	}()
@@ -685,7 +789,19 @@ func runOrderStart(ls, ps, rs []ordTok, tags []string, w *hx.Writer) {
 		e = "err"
 	}
 	c.Obs = "L:" + showIDs(ls, lg.L, true) + " B:" + showIDs(ls, lg.B, true) + " I:" + showIDs(ps, lg.I, false) +
-		" P:" + showIDs(ps, lg.P, false) + " A:" + showIDs(ps, lg.A, false) + " R:" + showIDs(rs, lg.R, false) + " E:" + e
+		" P:" + showIDs(ps, lg.P, false) + " A:" + showIDs(ps, lg.A, false) + " R:" + showIDs(rs, lg.R, false)
+	early := groupEarly(lg.G)
+	if cyc {
+		gs := make([]string, len(early))
+		for i, g := range early {
+			gs[i] = showIDs(ps, g, false)
+		}
+		if len(gs) == 0 {
+			gs = []string{"-"}
+		}
+		c.Obs += " G:" + strings.Join(gs, "/")
+	}
+	c.Obs += " E:" + e
 
 	// ---- oracles
 	// which stop was hit is read off the real log (the log itself is checked by seqOracle)
@@ -708,6 +824,16 @@ func runOrderStart(ls, ps, rs []ordTok, tags []string, w *hx.Writer) {
 	for _, id := range lg.I {
 		ilog = append(ilog, instIdx[id])
 	}
+	var smarts []ordTok // the SmartInstantiationAware processors, re-indexed
+	smartIdx := map[int]int{}
+	for _, t := range ps {
+		if t.smart {
+			smartIdx[t.id] = len(smarts)
+			t2 := t
+			t2.id = len(smarts)
+			smarts = append(smarts, t2)
+		}
+	}
 	var wantB []int
 	for _, id := range lg.L {
 		if ls[id].has('!') {
@@ -727,6 +853,18 @@ func runOrderStart(ls, ps, rs []ordTok, tags []string, w *hx.Writer) {
 		seqOracle("start-after", ps, lg.A, "^~", !loadStop && !beforeStop, false),
 		seqOracle("start-runners", rs, lg.R, "!", !loadStop && !procErr, false),
 	}
+	// every early-reference request walks the smart processors under the contract, each exactly once
+	// (no request at all when the configuration stage failed: the factory is never built)
+	if loadStop && len(early) != 0 {
+		checks = append(checks, fmt.Sprintf("FAIL start-early-stage ran although an earlier stage failed (%d calls)", len(lg.G)))
+	}
+	for _, g := range early {
+		glog := make([]int, 0, len(g))
+		for _, id := range g {
+			glog = append(glog, smartIdx[id])
+		}
+		checks = append(checks, seqOracle("start-early", smarts, glog, "", true, false))
+	}
 	if fmt.Sprint(wantB) != fmt.Sprint(lg.B) {
 		checks = append(checks, fmt.Sprintf("FAIL start-binder SetConfig sequence %v, LoadConfig sequence with data %v", lg.B, wantB))
 	}
@@ -739,6 +877,165 @@ func runOrderStart(ls, ps, rs []ordTok, tags []string, w *hx.Writer) {
 			c.Oracle = f
 			break
 		}
+	}
+	w.Put(c)
+}
+
+// ---------------------------------------------------------------- (iii) one Configure, several Initialize calls
+
+// confOp: one step on a configure.Configure.  kind 'S' SetLoaders(toks) / 'A' AddLoaders(toks) / 'I' Initialize()
+type confOp struct {
+	kind byte
+	toks []ordTok
+}
+
+func joinConfOps(ops []confOp) string {
+	ss := make([]string, len(ops))
+	for i, o := range ops {
+		ss[i] = strings.TrimSpace(string(o.kind) + " " + joinToks(o.toks))
+	}
+	return strings.Join(ss, " / ")
+}
+
+// parseConfOps: loader ids run over the whole line (every token is its own loader object)
+func parseConfOps(ws []string) ([]confOp, bool) {
+	var ops []confOp
+	id := 0
+	seg := []string{}
+	flush := func() bool {
+		if len(seg) == 0 {
+			return false
+		}
+		o := confOp{}
+		switch seg[0] {
+		case "S", "A", "I":
+			o.kind = seg[0][0]
+		default:
+			return false
+		}
+		if o.kind == 'I' && len(seg) > 1 {
+			return false
+		}
+		for _, x := range seg[1:] {
+			t, ok := parseOrdTok(x, id)
+			if !ok || t.inst {
+				return false
+			}
+			id++
+			o.toks = append(o.toks, t)
+		}
+		ops = append(ops, o)
+		seg = seg[:0]
+		return true
+	}
+	for _, x := range ws {
+		if x == "/" {
+			if !flush() {
+				return nil, false
+			}
+			continue
+		}
+		seg = append(seg, x)
+	}
+	if !flush() {
+		return nil, false
+	}
+	return ops, true
+}
+
+// runOrderConf drives ONE real configure.Configure (configure.NewConfigure + the real viper binder, SetConfig calls logged)
+// through the steps and evaluates the contract on the LoadConfig callbacks of EVERY Initialize: the participants are the
+// loaders registered at that moment (SetLoaders replaces, AddLoaders appends — tracked here, not read from the model).
+func runOrderConf(ops []confOp, tags []string, w *hx.Writer) {
+	c := hx.Case{Scn: "Q " + joinConfOps(ops), Tags: tags}
+	lg := &startLog{cur: -1}
+	var all []ordTok // by id
+	for _, o := range ops {
+		all = append(all, o.toks...)
+	}
+	var groups, fails []string
+	pan := hx.Guard(func() {
+		conf := configure.NewConfigure()
+		conf.SetBinder(&logBinder{Binder: binder.NewViperBinder("yaml"), log: lg})
+		var cur []ordTok // registered right now, in registration order
+		for _, o := range ops {
+			var lds []configure.Loader
+			for _, t := range o.toks {
+				lds = append(lds, mkLoader(sBase{tok: t, name: fmt.Sprintf("ordL%d", t.id), log: lg}))
+			}
+			switch o.kind {
+			case 'S':
+				conf.SetLoaders(lds...)
+				cur = append([]ordTok(nil), o.toks...)
+			case 'A':
+				conf.AddLoaders(lds...)
+				cur = append(cur, o.toks...)
+			case 'I':
+				lg.L, lg.B, lg.cur = nil, nil, -1
+				err := conf.Initialize()
+				e := "ok"
+				if err != nil {
+					e = "err"
+				}
+				groups = append(groups, "L:"+showIDs(all, lg.L, true)+" B:"+showIDs(all, lg.B, true)+" E:"+e)
+				// ---- oracle for this Initialize: participants re-indexed by registration position
+				pos := map[int]int{}
+				in := make([]ordTok, len(cur))
+				for i, t := range cur {
+					pos[t.id] = i
+					in[i] = t
+					in[i].id = i
+				}
+				llog := make([]int, 0, len(lg.L))
+				foreign := false
+				for _, id := range lg.L {
+					p, ok := pos[id]
+					if !ok {
+						foreign = true
+						fails = append(fails, fmt.Sprintf("FAIL conf-loaders-perm Initialize %d called loader %s#%d which is not registered", len(groups), all[id], id))
+						break
+					}
+					llog = append(llog, p)
+				}
+				if foreign {
+					continue
+				}
+				if f := seqOracle("conf-loaders", in, llog, "!*", true, true); f != "" {
+					fails = append(fails, fmt.Sprintf("%s (Initialize %d)", f, len(groups)))
+				}
+				var wantB []int
+				for _, id := range lg.L {
+					if all[id].has('!') {
+						break
+					}
+					if all[id].has('*') || all[id].has('+') {
+						wantB = append(wantB, id)
+					}
+					if all[id].has('*') {
+						break
+					}
+				}
+				if fmt.Sprint(wantB) != fmt.Sprint(lg.B) {
+					fails = append(fails, fmt.Sprintf("FAIL conf-binder SetConfig sequence %v, LoadConfig sequence with data %v (Initialize %d)", lg.B, wantB, len(groups)))
+				}
+				if anyMark(cur, "!*") != (err != nil) {
+					fails = append(fails, fmt.Sprintf("FAIL conf-result Initialize %d error=%v, injected failure=%v", len(groups), err != nil, anyMark(cur, "!*")))
+				}
+			}
+		}
+	})
+	if pan != nil {
+		c.Obs = "panic"
+		c.Oracle = "FAIL conf-panic " + fmt.Sprint(pan)
+		w.Put(c)
+		return
+	}
+	c.Obs = strings.Join(groups, " | ")
+	if len(groups) == 0 {
+		c.Obs = "-"
+	}
+	if len(fails) > 0 {
+		c.Oracle = fails[0]
 	}
 	w.Put(c)
 }
@@ -821,9 +1118,163 @@ func startTags(ls, ps, rs []ordTok) []string {
 	return tags
 }
 
+// contractSorted: does the sequence already satisfy the contract (classes in order, keys non-decreasing in the first two)?
+func contractSorted(ts []ordTok) bool {
+	for i := 1; i < len(ts); i++ {
+		a, b := ts[i-1], ts[i]
+		if a.rank() > b.rank() || (a.rank() == b.rank() && a.rank() < 2 && a.key > b.key) {
+			return false
+		}
+	}
+	return true
+}
+
+func smartOf(ps []ordTok) []ordTok {
+	var out []ordTok
+	for _, t := range ps {
+		if t.smart {
+			out = append(out, t)
+		}
+	}
+	return out
+}
+
+func cycTags(ps []ordTok) []string {
+	tags := []string{"cycle"}
+	sm := smartOf(ps)
+	switch {
+	case len(sm) >= 2 && !contractSorted(sm):
+		tags = append(tags, "smart-registered-out-of-order")
+	case len(sm) >= 2:
+		tags = append(tags, "smart>=2")
+	default:
+		tags = append(tags, "smart<2")
+	}
+	return tags
+}
+
+// genConfOps: a step sequence for one Configure. Half of the cases follow the template
+// SetLoaders(l1) / Initialize / SetLoaders(l2), len l2 = len l1 / Initialize [/ AddLoaders / Initialize]; the rest are free sequences.
+func genConfOps(r *hx.Rng) []confOp {
+	mode := r.Intn(4)
+	wts := [4]int{2, 2, 1, 1}
+	if r.P(1, 3) {
+		wts = genWeights(r)
+	}
+	id := 0
+	list := func(ln int) []ordTok {
+		ts := make([]ordTok, ln)
+		for j := range ts {
+			ts[j] = ordTok{cls: genClass(r, wts), id: id}
+			id++
+			if ts[j].cls == 'p' || ts[j].cls == 'o' {
+				ts[j].key = genKey(r, mode)
+			}
+			if r.P(1, 3) {
+				ts[j].marks = "+"
+			}
+		}
+		return ts
+	}
+	var ops []confOp
+	if r.P(1, 2) {
+		ln := 2 + r.Intn(5)
+		if r.P(1, 6) {
+			ln = 13 + r.Intn(8)
+		}
+		ops = append(ops, confOp{'S', list(ln)}, confOp{kind: 'I'}, confOp{'S', list(ln)}, confOp{kind: 'I'})
+		if r.P(1, 3) {
+			ops = append(ops, confOp{'A', list(1 + r.Intn(3))}, confOp{kind: 'I'})
+		}
+		if r.P(1, 4) {
+			ops = append(ops, confOp{'S', list(ln)}, confOp{kind: 'I'})
+		}
+	} else {
+		k := 2 + r.Intn(6)
+		for j := 0; j < k; j++ {
+			switch x := r.Intn(5); {
+			case x < 2:
+				ops = append(ops, confOp{kind: 'I'})
+			case x < 4:
+				ops = append(ops, confOp{'S', list(r.Intn(6))})
+			default:
+				ops = append(ops, confOp{'A', list(r.Intn(4))})
+			}
+		}
+		ops = append(ops, confOp{kind: 'I'})
+	}
+	// one injected stop, only where the stopped prefix does not depend on tie order: a plain loader (registration order)
+	// or a (class,key) that no other loader of the line has
+	if r.P(15, 100) && id > 0 {
+		var all []*ordTok
+		for i := range ops {
+			for j := range ops[i].toks {
+				all = append(all, &ops[i].toks[j])
+			}
+		}
+		for tries := 0; tries < 3; tries++ {
+			t := all[r.Intn(len(all))]
+			uniq := true
+			for _, u := range all {
+				if u != t && u.rank() == t.rank() && u.key == t.key {
+					uniq = false
+				}
+			}
+			if t.rank() == 2 || uniq {
+				t.marks = []string{"!", "*", "+!"}[r.Intn(3)]
+				break
+			}
+		}
+	}
+	return ops
+}
+
+func confTags(ops []confOp) []string {
+	tags := []string{"conf-seq"}
+	inits, toks := 0, 0
+	lastLen, curLen, sameSize, stop := -1, 0, false, false
+	for _, o := range ops {
+		toks += len(o.toks)
+		if anyMark(o.toks, "!*") {
+			stop = true
+		}
+		switch o.kind {
+		case 'S':
+			curLen = len(o.toks)
+			if lastLen == curLen && curLen >= 2 {
+				sameSize = true
+			}
+		case 'A':
+			curLen += len(o.toks)
+		case 'I':
+			inits++
+			lastLen = curLen
+		}
+	}
+	if inits == 0 || toks <= 1 {
+		tags = append(tags, "trivial")
+	}
+	if inits >= 2 {
+		tags = append(tags, "re-initialize")
+	}
+	if sameSize {
+		tags = append(tags, "setloaders-same-size-after-initialize")
+	}
+	if stop {
+		tags = append(tags, "loader-stop")
+	}
+	return tags
+}
+
 func orderStartGen(rng *hx.Rng, n int, tier string, w *hx.Writer) {
 	for i := 0; i < n; i++ {
 		r := rng.Fork()
+		kind := r.Intn(10) // 0-4 plain start, 5-7 start with a circular probe (early reference), 8-9 Configure step sequence
+		if kind >= 8 {
+			ops := genConfOps(r)
+			runOrderConf(ops, confTags(ops), w)
+			continue
+		}
 		max := 8
 		if r.P(1, 5) {
 			max = 20
@@ -831,7 +1282,19 @@ func orderStartGen(rng *hx.Rng, n int, tier string, w *hx.Writer) {
 		ls := genStartList(r, max, 'L', 12)
 		ps := genStartList(r, max, 'P', 25)
 		rs := genStartList(r, max, 'R', 25)
-		runOrderStart(ls, ps, rs, startTags(ls, ps, rs), w)
+		if kind >= 5 {
+			if len(ps) < 2 {
+				ps = genStartList(r, max, 'P', 25)
+			}
+			for j := range ps {
+				if r.P(3, 5) {
+					ps[j].inst, ps[j].smart = true, true
+				}
+			}
+			runOrderStart(ls, ps, rs, true, append(startTags(ls, ps, rs), cycTags(ps)...), w)
+			continue
+		}
+		runOrderStart(ls, ps, rs, false, startTags(ls, ps, rs), w)
 	}
 }
 
@@ -847,6 +1310,21 @@ func orderStartCorpus(w *hx.Writer) {
 		"L P p3 o1^ o2 n R o1 p5",
 		"L P p3 o1~ io2 n R o1 p5! n",
 		"L P R p-9223372036854775808 p9223372036854775807 o-1! o-2 n",
+		// early references: smart processors registered against the contract order (classes, Orders, extremes, ties)
+		"SC L P R",
+		"SC L P sn so5 sp70 R",
+		"SC L P sp70 sp-3 so5 so-40 so1 sn R",
+		"SC L o2+ p1 P sn io3 so9223372036854775807 p4 so-9223372036854775808 sq sp0 so-1 R n o1",
+		"SC L P so1 so1 sp1 o2? sn sp1 so0 R p1!",
+		"SC L n! P sn so5 sp70 R n",
+		"SC L P so2 sp1^ sn R n",
+		"SC L P in so5 n R",
+		// one Configure, several Initialize calls
+		"Q I",
+		"Q S n o5 p9 / I / S n o7 p3 / I",
+		"Q S n+ o5+ p9 / I / I / A p1+ n / I / S q o-1 / I",
+		"Q S o2+ p1 n! n / I / S n n o1 p1 / I",
+		"Q A o3 / A p2* n / I / S n o-9223372036854775808 o9223372036854775807 / I / S / I",
 	} {
 		orderReplay(s, w)
 	}
@@ -887,7 +1365,11 @@ func orderReplay(scn string, w *hx.Writer) {
 		if toks, ok := parseOrdToks(f[1:]); ok {
 			runOrderDirect(toks, []string{"replay"}, w)
 		}
-	case "S":
+	case "Q":
+		if ops, ok := parseConfOps(f[1:]); ok {
+			runOrderConf(ops, append(confTags(ops), "replay"), w)
+		}
+	case "S", "SC":
 		l, p, r, ok := splitSections(f[1:])
 		if !ok {
 			return
@@ -896,7 +1378,11 @@ func orderReplay(scn string, w *hx.Writer) {
 		ps, ok2 := parseOrdToks(p)
 		rs, ok3 := parseOrdToks(r)
 		if ok1 && ok2 && ok3 {
-			runOrderStart(ls, ps, rs, append(startTags(ls, ps, rs), "replay"), w)
+			tags := startTags(ls, ps, rs)
+			if f[0] == "SC" {
+				tags = append(tags, cycTags(ps)...)
+			}
+			runOrderStart(ls, ps, rs, f[0] == "SC", append(tags, "replay"), w)
 		}
 	}
 }
